@@ -25,7 +25,7 @@ pub fn entry() -> Entry {
         assumptions: &["`written name` of an unaliased item = sqlparser's rendering of the expression with identifier quotes stripped (what the engine documents)", "an engine-internal panic that is delivered to the caller as an error value is an error value"],
         quick_budget_s: 900,
         thorough_budget_s: 7200,
-        required_classes: &["kind:well_typed", "wt:select", "wt:aggregate", "wt:repeated_item", "wt:absent_column_selected", "wt:window_inside", "wt:offset_beyond", "wt:limit_0", "wt:order_by_2", "kind:grammar", "kind:unsupported", "kind:mutated_tokens", "kind:mutated_bytes", "outcome:ok", "outcome:err", "parses:yes", "parses:no", "literal:negative", "literal:fractional", "literal:exponent", "literal:beyond_u64", "quoting:double", "quoting:backtick", "alias", "star"],
+        required_classes: &["kind:well_typed", "wt:select", "wt:aggregate", "wt:repeated_item", "wt:absent_column_selected", "wt:window_inside", "wt:table_u_single_partition", "wt:table_t_three_partitions", "wt:offset_beyond", "wt:limit_0", "wt:order_by_2", "kind:grammar", "kind:unsupported", "kind:mutated_tokens", "kind:mutated_bytes", "outcome:ok", "outcome:err", "parses:yes", "parses:no", "literal:negative", "literal:fractional", "literal:exponent", "literal:beyond_u64", "quoting:double", "quoting:backtick", "alias", "star"],
         exhaustive_claim: false,
     }
 }
@@ -98,7 +98,7 @@ fn select_item() -> BoxedStrategy<(String, Vec<String>)> {
 fn grammar_statement() -> BoxedStrategy<(String, Vec<String>)> {
     (
         vec(select_item(), 1..=4),
-        proptest::sample::select(vec!["t", "\"t\"", "`t`", "T", "no_such_table", "_meta_tables", "\"_meta_columns_t\""]),
+        proptest::sample::select(vec!["t", "\"t\"", "`t`", "T", "u", "no_such_table", "_meta_tables", "\"_meta_columns_t\""]),
         proptest::option::weighted(0.5, scalar_expr()),
         vec((scalar_expr(), proptest::sample::select(vec!["", " ASC", " DESC", " asc"])), 0..=2),
         proptest::option::weighted(0.4, prop_oneof![(0u64..20).prop_map(|x| x.to_string()), literal().prop_map(|l| l.0)]),
@@ -279,8 +279,9 @@ fn well_typed_statement() -> BoxedStrategy<(String, Vec<String>)> {
         vec((col(), proptest::sample::select(vec!["", " ASC", " DESC"])), 0..=2),
         proptest::option::weighted(0.65, 0u64..15),
         proptest::option::weighted(0.5, 0u64..15),
+        any::<bool>(),
     )
-        .prop_map(|(items, filter, order, limit, offset)| {
+        .prop_map(|(items, filter, order, limit, offset, single_partition)| {
             let mut labels = vec![];
             let has_agg = items.iter().any(|i| (i.0).1);
             labels.push(if has_agg { "wt:aggregate".to_string() } else { "wt:select".to_string() });
@@ -291,7 +292,8 @@ fn well_typed_statement() -> BoxedStrategy<(String, Vec<String>)> {
             if items.iter().any(|((e, _), _)| e.contains("nosuch")) {
                 labels.push("wt:absent_column_selected".to_string());
             }
-            let mut s = format!("SELECT {} FROM t", texts.join(", "));
+            labels.push(if single_partition { "wt:table_u_single_partition".to_string() } else { "wt:table_t_three_partitions".to_string() });
+            let mut s = format!("SELECT {} FROM {}", texts.join(", "), if single_partition { "u" } else { "t" });
             if let Some(f) = filter {
                 labels.push("wt:where".to_string());
                 s.push_str(&format!(" WHERE {}", f));
@@ -409,7 +411,12 @@ pub fn check(case: &Case, env: &mut CaseEnv) -> Result<(), Failure> {
             dbh.flush().map_err(|f| Failure::from_fault(&f, "fixture flush"))?;
         }
     }
-    let known_tables = ["t", "_meta_tables", "_meta_columns_t", "_meta_columns__meta_tables"];
+    // the same rows once more as table u, never flushed: a single 12-row buffer partition, so that LIMIT/OFFSET
+    // windows are cut out of columns that are longer than the window (in t every partition has 4 rows)
+    for b in &batches {
+        dbh.ingest(Request::single("u", b.clone()).to_event_buffer()).map_err(|f| Failure::from_fault(&f, "fixture ingest u"))?;
+    }
+    let known_tables = ["t", "u", "_meta_tables", "_meta_columns_t", "_meta_columns_u", "_meta_columns__meta_tables"];
     env.sample(|| json!({"statements": case.statements.iter().take(5).map(|s| &s.0).collect::<Vec<_>>() }));
     for (sql, kind) in &case.statements {
         for l in kind.split('|') {
